@@ -117,6 +117,39 @@ def run(ctx):
         ctx.count('chain-depth-%d' % depth)
         if got != '>'.join(exp):
             ctx.violation('chain:ground-truth', case, g_out, 'expected chain ' + '>'.join(exp))
+    # ---- syntax errors: a stray token planted on a generator-known line, after wide characters -------------
+    syn_lines, syn_expect = [], []
+    for src in srcs[: ctx.n(400, 8000)]:
+        lines_ = src.split('\n')
+        # candidate positions: top-level (unindented) lines after the definitions
+        cands = [i for i, l in enumerate(lines_) if l and not l.startswith(' ') and not l.startswith('如何') and not l.startswith('注') and not l.startswith('/*') and '*/' not in l and '”' not in l[:1]]
+        cands = [i for i in cands if i > 0 and not lines_[i - 1].rstrip().endswith(('：', '，', '、', '【', '{'))]
+        # avoid planting inside a multi-line literal / comment: only lines whose predecessors have balanced quotes
+        ok = []
+        bal = 0
+        for i, l in enumerate(lines_):
+            if bal == 0 and i in cands:
+                ok.append(i)
+            bal += l.count('“') - l.count('”') + l.count('/*') - l.count('*/')
+        if not ok:
+            continue
+        i = rng.choice(ok)
+        pre = rng.choice(['', '甲乙丙 ', 'ab ', '数甲 '])
+        bad = lines_[:i] + [pre + '）'] + lines_[i:]
+        text = '\n'.join(bad)
+        width = sum(2 if ord(c) > 0x2E80 else 1 for c in pre)
+        syn_lines.append('run ' + cps(text))
+        syn_expect.append('main:%d caret=%d' % (i + 1, width))
+    syn_go = ctx.run_go(syn_lines)
+    for line, g_out, exp in zip(syn_lines, syn_go, syn_expect):
+        ctx.evaluations += 1
+        ctx.count('syntax-planted')
+        f = g_out.split(' ')
+        got = ' '.join(f[3:5]) if g_out.startswith('err syn') and len(f) >= 5 else g_out
+        if got != exp:
+            ctx.violation('syntax:ground-truth', line, g_out, 'expected syntax error at ' + exp)
+        ctx.nontriv(line)
+    ctx.streams.append({'stream': 'syntax-planted', 'cases': len(syn_lines)})
     # the same programs with CRLF line ends: physical lines are the same
     crlf = [s.replace('\n', '\r\n') for s in srcs[: max(200, n // 5)]]
     lines = ['run ' + cps(s) for s in crlf]
